@@ -1,9 +1,40 @@
-"""C06 — every exported package is closed and self-consistent (DESIGN.md 6.9)."""
+"""C06 — every exported package is closed and self-consistent (DESIGN.md 6.9).
+
+Every package is evaluated inside Coq by Corr/C06.v:chk_c06_full (wf_pkg + instance parameters + what from_proto and the
+spice / spectre netlisters answered against Spec/C06Accept.v).  Packages come from
+  corpus        fixed witnesses (repaired defects, recorded findings, the shapes past seeded changes needed)
+  examples / generators / pdk     as before
+  designs       harness/vp/design.py:gen_design, half of them ENRICHED (enrich below): ExternalModules in domains,
+                same-named ones in other domains, twin objects of one declaration, dict- and paramclass-typed parameters
+                with un-set (None) values, Modules defined in two Python files
+  stressed      single-fault mutants, module-name clashes at every depth, conflicting external declarations
+  foreign       the design generators of OTHER properties (C01 bundle fragment, C05 adversarial names, C10 bundle trees,
+                C15 PDK compilation incl. ASAP7 default sizes, C16 flatten, C19 Series/MosStack/Wrapper) run through their own
+                implementation drivers; every package any to_proto call returns there is captured (DESIGN.md 6.9)
+and the exporter model (Model/C06Export.v) is tied to the implementation on every `designs` / `stressed` / corpus design:
+module order, per-module references in instance order, external declarations in order, refusal on name conflicts."""
 import json, copy
 from . import core, design as D
+from .core import cstr, cz, clist
 
-IMPORTS = ("Require Import Hdl21.Base.PyInt Hdl21.Base.Design Hdl21.Base.Package Hdl21.Corr.C03 Hdl21.Corr.C06.")
+IMPORTS = ("Require Import Hdl21.Base.PyInt Hdl21.Base.Design Hdl21.Base.Package Hdl21.Model.C06Export Hdl21.Corr.C03 Hdl21.Corr.C06.")
 EXAMPLES = ["ro", "rdac", "encoder", "mos_sim", "diff_ota", "idac", "bundles"]
+MODEL_TYPES = ["RESISTOR", "CAPACITOR", "MOS", "DIODE", "BIPOLAR", "VSOURCE", "TLINE"]
+PRIM_CLASS = {"Mos": "Mos", "R": "IdealResistor", "C": "IdealCapacitor", "Bjt": "Bipolar", "D": "Diode", "Res3": "ThreeTerminalResistor",
+              "Vdc": "DcVoltageSource", "Vpulse": "PulseVoltageSource"}
+LIBPREFIX = {None: "__main__.", "a": "c06liba.", "b": "c06libb."}     # the builder of harness/impl/c06.py runs as __main__
+WHAT = {31: "an instance parameter without a name or a value, or a repeated parameter name",
+        41: "from_proto rejects a well-formed package", 42: "a netlister rejects a well-formed package whose flat names are unique",
+        50: "the netlisters reject a well-formed package: two of its names fall together in their flat name space",
+        51: "the netlisters reject a well-formed package: an instance of a vlsir.primitives element lacks a parameter vlsirtools requires",
+        3: "the flat-name-space / required-parameter model of the netlisters (Spec/C06Accept.v) disagrees with the netlisters"}
+
+
+def short_key(job):
+    """canonical JSON of the job; long ones are cut and closed with a digest of the whole"""
+    import hashlib
+    s = json.dumps(job, sort_keys=True)
+    return s if len(s) <= 400 else s[:300] + "#" + hashlib.sha256(s.encode()).hexdigest()[:16]
 
 
 def deep_nameclash(r, d):
@@ -28,9 +59,322 @@ def deep_nameclash(r, d):
     return d
 
 
+# ------------------------------------------------------------------------------------------------ enriched designs
+PVALS = [None, None, 3, "fast", ["p", "1.5", "MICRO"], ["p", "2", "UNIT"], ["f", (0.25).hex()], ["l", "2*w"]]
+
+
+def rand_params(r, ptype):
+    if ptype == "class":
+        d = dict(tag=r.randint(0, 3))
+        if r.random() < 0.7:
+            d["vt"] = r.choice([None, None, "lvt"])
+        if r.random() < 0.6:
+            d["m"] = r.choice([None, 2])
+        if r.random() < 0.5:
+            d["w"] = r.choice([None, ["p", "1.5", "MICRO"], ["l", "2*w"]])
+        return d
+    keys = r.sample(["tag", "w", "l", "nf", "mult", "model", "vt"], r.randint(1, 5))
+    return {k: r.choice(PVALS) for k in keys}
+
+
+def ext_insts(d, k):
+    return [x for md in d["mods"] for x in md["insts"] if x["of"][0] == "ext" and x["of"][1] == k]
+
+
+def enrich(r, d, conflict=False):
+    """ExternalModules in domains; a same-named one in another domain (other netlist name space: the netlisters keep one flat
+    space for sub-circuits and one for models); a twin OBJECT of identical declaration; dict / paramclass parameters with un-set
+    values; Modules defined in two Python files. `conflict`: a twin whose declaration differs (to_proto must refuse)."""
+    d = copy.deepcopy(d)
+    exts = d["exts"]
+    for x in exts:
+        x["domain"] = r.choice([None, "", "libx", "liby"])
+        x["ptype"] = r.choice(["dict", "dict", "class"])
+        x["spice"] = "SUBCKT"
+        x["lib"] = r.choice([None, None, "a"])
+    feats = set()
+    n0 = len(exts)
+    for k in range(n0):
+        users = ext_insts(d, k)
+        if not users:
+            continue
+        x = exts[k]
+        u = r.random()
+        if u < 0.45:
+            # same name, other domain, same Python file, identical ports; the other netlist name space
+            twin = dict(x, domain=(x["domain"] or "") + "_2", spice=r.choice(MODEL_TYPES))
+            feats.add("same_name_other_domain")
+        elif u < 0.75:
+            twin = copy.deepcopy(x)                     # a second OBJECT of the same declaration
+            if conflict:
+                if r.random() < 0.5:
+                    twin["ports"] = twin["ports"] + [["zz", 1]]
+                else:
+                    twin["spice"] = r.choice(MODEL_TYPES)
+                feats.add("conflicting_twin")
+            else:
+                feats.add("twin_object")
+        else:
+            continue
+        exts.append(twin)
+        moved = [y for y in users if r.random() < 0.5] or [users[-1]]
+        if len(moved) == len(users) and len(users) > 1:
+            moved = moved[1:]
+        for y in moved:
+            y["of"][1] = len(exts) - 1
+            if "zz" in [p[0] for p in twin["ports"]] and "zz" not in [c[0] for c in y["conns"]]:
+                y["conns"].append(["zz", ["sig", None]])      # filled below with a one-bit signal of the module
+    for md in d["mods"]:
+        one = [n for n, w in md["sigs"] if w == 1] + [n for n, w, _ in md["ports"] if w == 1]
+        for y in md["insts"]:
+            for c in y["conns"]:
+                if c[1] == ["sig", None]:
+                    if not one:
+                        md["sigs"].append(["zz1", 1])
+                        one.append("zz1")
+                    c[1] = ["sig", one[0]]
+            if y["of"][0] == "ext":
+                y["of"][2] = rand_params(r, exts[y["of"][1]]["ptype"])
+                if any(v is None for v in y["of"][2].values()):
+                    feats.add("unset_" + exts[y["of"][1]]["ptype"] + "_param")
+    libs = [r.choice([None, None, "a", "b"]) for _ in d["mods"]]
+    for md, l in zip(d["mods"], libs):
+        md["lib"] = l
+    if len({l for l in libs}) > 1:
+        feats.add("two_python_files")
+    d["feats"] = sorted(feats)
+    return d
+
+
+# ------------------------------------------------------------------------------------------------ corpus
+def _leaf(name="Leaf", lib=None):
+    return dict(name=name, lib=lib, ports=[["a", 1, "inout"], ["b", 1, "inout"]], sigs=[],
+                insts=[dict(name="r", n=0, of=["prim", "R", 1], conns=[["p", ["sig", "a"]], ["n", ["sig", "b"]]])])
+
+
+def _ext(name="res", domain=None, ports=("p", "n"), ptype="dict", spice="SUBCKT", lib=None):
+    return dict(name=name, domain=domain, ports=[[p, 1] for p in ports], ptype=ptype, spice=spice, lib=lib)
+
+
+def _xi(name, k, params, ports=("p", "n"), nets=("x", "y", "x")):
+    return dict(name=name, n=0, of=["ext", k, params], conns=[[p, ["sig", nets[i]]] for i, p in enumerate(ports)])
+
+
+def _top(insts, exts, mods=(), name="Top"):
+    mods = list(mods)
+    return dict(mods=mods + [dict(name=name, ports=[], sigs=[["x", 1], ["y", 1]], insts=insts)], exts=exts, top=len(mods))
+
+
+def corpus():
+    """(label, design, expectation) — expectation: "ok" | "refused" (to_proto must raise) | "finding" (code 50, recorded)"""
+    out = []
+    # fixes/C06-1: two ExternalModule OBJECTS of one (domain, name) and one declaration were declared twice (from_proto and the
+    # netlisters rejected the package); declared once now
+    out.append(("twin-external-objects", _top([_xi("r1", 0, {"r": 1}), _xi("r2", 1, {"r": 2})],
+                                              [_ext(domain="lib"), _ext(domain="lib")]), "ok"))
+    out.append(("twin-external-objects-below", dict(mods=[
+        dict(name="A", ports=[["x", 1, "inout"], ["y", 1, "inout"]], sigs=[], insts=[_xi("r1", 0, {"r": 1})]),
+        dict(name="B", ports=[["x", 1, "inout"], ["y", 1, "inout"]], sigs=[], insts=[_xi("r1", 1, {"r": 1})]),
+        dict(name="Top", ports=[], sigs=[["x", 1], ["y", 1]], insts=[
+            dict(name="a", n=0, of=["mod", 0], conns=[["x", ["sig", "x"]], ["y", ["sig", "y"]]]),
+            dict(name="b", n=0, of=["mod", 1], conns=[["x", ["sig", "x"]], ["y", ["sig", "y"]]])])],
+        exts=[_ext(domain="lib"), _ext(domain="lib")], top=2), "ok"))
+    # ... and two objects of one (domain, name) whose declarations differ are refused
+    out.append(("conflicting-external-objects", _top([_xi("r1", 0, {"r": 1}), _xi("r2", 1, {"r": 2}, ports=("p", "n", "b"))],
+                                                     [_ext(domain="lib"), _ext(domain="lib", ports=("p", "n", "b"))]), "refused"))
+    # same name, two domains, one Python file, sub-circuit + model (the netlisters keep the two apart)
+    out.append(("same-name-two-domains", dict(mods=[
+        dict(name="Divider", ports=[["x", 1, "inout"], ["y", 1, "inout"]], sigs=[], insts=[
+            _xi("r1", 0, {"r": 1000}, ports=("p", "n", "sub")), _xi("r2", 1, {"r": 2000})]),
+        dict(name="Top", ports=[], sigs=[["x", 1], ["y", 1]], insts=[
+            dict(name="d", n=0, of=["mod", 0], conns=[["x", ["sig", "x"]], ["y", ["sig", "y"]]])])],
+        exts=[_ext(domain="vendor_lib", ports=("p", "n", "sub")), _ext(domain="foundry", spice="RESISTOR")], top=1), "ok"))
+    # dict-typed parameters with un-set entries (what the ASAP7 compiler writes), paramclass with un-set Optional fields
+    out.append(("dict-params-unset", _top([_xi("c", 0, {"drive": 2, "vt": None, "w": None, "l": ["p", "20", "NANO"]})],
+                                          [_ext(name="cell", domain="lib")]), "ok"))
+    out.append(("class-params-unset", _top([_xi("c", 0, {"tag": 2, "vt": None, "m": None, "w": ["p", "1.5", "MICRO"]})],
+                                           [_ext(name="cell", domain="lib", ptype="class")]), "ok"))
+    # ideal sources whose required parameters are given with the value 0 (a value, not "un-set")
+    out.append(("ideal-sources-zero-values", _top([
+        dict(name="v0", n=0, of=["prim", "Vdc", 0], conns=[["p", ["sig", "x"]], ["n", ["sig", "y"]]]),
+        dict(name="v1", n=0, of=["prim", "Vpulse", 0], conns=[["p", ["sig", "y"]], ["n", ["sig", "x"]]]),
+        dict(name="v2", n=0, of=["prim", "Vpulse", 1], conns=[["p", ["sig", "y"]], ["n", ["sig", "x"]]])], []), "ok"))
+    # RECORDED FINDINGS: packages that are closed and self-consistent, yet refused by the spice and spectre netlisters because
+    # the netlist languages have ONE name space (vlsirtools/netlist/base.py documents the limit)
+    out.append(("flat-names-external-subckts", _top([_xi("r1", 0, {"r": 1}), _xi("r2", 1, {"r": 2})],
+                                                    [_ext(domain="libA"), _ext(domain="libB")]), "finding"))
+    out.append(("flat-names-modules", dict(mods=[_leaf("Inv", "a"), _leaf("Inv", "b"), dict(
+        name="Top", ports=[], sigs=[["x", 1], ["y", 1]], insts=[
+            dict(name="i1", n=0, of=["mod", 0], conns=[["a", ["sig", "x"]], ["b", ["sig", "y"]]]),
+            dict(name="i2", n=0, of=["mod", 1], conns=[["a", ["sig", "x"]], ["b", ["sig", "y"]]])])], exts=[], top=2), "finding"))
+    return out
+
+
+def corpus_driver_jobs():
+    """corpus witnesses that need another driver's language: (label, job, expectation)"""
+    return [
+        # RECORDED FINDING: Hdl21's ideal sources declare every parameter Optional; Vpulse() is exported without the parameters
+        # vlsirtools requires of a vpulse, and both netlisters refuse the package ("Required parameter `v1` not specified")
+        ("vpulse-without-parameters", dict(source="driver", driver="c19", fn="do",
+                                           arg=dict(gen="wrapper", unit=dict(kind="prim", name="PulseVoltageSource"))), "finding"),
+        ("vsin-without-parameters", dict(source="driver", driver="c19", fn="do",
+                                         arg=dict(gen="wrapper", unit=dict(kind="prim", name="SineVoltageSource"))), "finding"),
+    ]
+
+
+# ------------------------------------------------------------------------------------------------ Coq printers
+def c_case(p):
+    code = lambda v: 0 if v is None else (2 if isinstance(v, str) and v.startswith("skipped") else 1)
+    a = p["accept"]
+    return (f"{{| cc_pkg := {D.c_pkg(p['pkg'])};\n   cc_from := {code(a['from_proto'])}; cc_spice := {code(a['spice'])}; "
+            f"cc_spectre := {code(a['spectre'])} |}}")
+
+
+def c_pext_of_design(x):
+    return (f"{{| px_domain := {cstr(x.get('domain') or '')}; px_name := {cstr(x['name'])}; "
+            f"px_ports := {clist(x['ports'], lambda s: f'({cstr(s[0])}, {cz(s[1])}, 3)')}; px_spicetype := {cstr(x.get('spice') or 'SUBCKT')} |}}")
+
+
+def c_cref(of):
+    if of[0] == "mod":
+        return f"CMod {of[1]}"
+    if of[0] == "ext":
+        return f"CExt {of[1]}"
+    return f"CPrim {cstr(PRIM_CLASS[of[1]])}"
+
+
+def c_cinst(x):
+    return "(" + c_cref(x["of"]) + ", " + cz(x["n"]) + ")"
+
+
+def c_cmod(md):
+    return "(" + cstr(LIBPREFIX[md.get("lib")] + md["name"]) + ", " + clist(md["insts"], c_cinst) + ")"
+
+
+def c_order_case(design, out):
+    impl = f"(Some {D.c_pkg(out['pkgs'][0]['pkg'])})" if out["pkgs"] else "None"
+    return (f"{{| oc_mods := {clist(design['mods'], c_cmod)};\n   oc_xheap := {clist(design.get('exts', []), c_pext_of_design)}; "
+            f"oc_top := {design['top']};\n   oc_impl := {impl} |}}")
+
+
+def tie_scope(job, out):
+    """The exporter model speaks about designs that reach the exporter: exported, or refused BY THE EXPORTER."""
+    if job.get("source") != "design" or any(md["name"] is None for md in job["design"]["mods"]):
+        return False
+    if out["pkgs"]:
+        return True
+    return out.get("stage") == "export" and (out["err"] or {}).get("cls") == "RuntimeError"
+
+
+# ------------------------------------------------------------------------------------------------ foreign generators
+def flat_clash_features(design):
+    """C01-bundle designs: a designer signal named like a flattened bundle member (b_x), its width, whether it is connected."""
+    from . import c01b
+    f = dict(clash=0, clash_other_width=0, clash_connected=0)
+    s_all = json.dumps(design)
+    for md in design["mods"]:
+        sig = {n: w for n, w in md["sigs"]}
+        sig.update({p[0]: p[1] for p in md["ports"]})
+        for b in md["bundles"]:
+            for path, w in c01b.def_members(design["defs"], b["d"]):
+                nm = "_".join([b["n"]] + path)
+                if nm in sig:
+                    f["clash"] = 1
+                    if sig[nm] != w:
+                        f["clash_other_width"] = 1
+                        if json.dumps(["sig", nm]) in json.dumps(md["insts"]):
+                            f["clash_connected"] = 1
+    return f
+
+
+def foreign_jobs(seed, quick):
+    """(jobs, measured extras). Each job runs another property's driver on one of its own jobs."""
+    from . import c01b, c05, c10, c15, c16, c19
+    jobs = []
+    J = lambda drv, fn, arg, **kw: jobs.append(dict(source="driver", driver=drv, fn=fn, arg=arg, **kw))
+    # C01 bundle fragment
+    nb = 150 if quick else 2500
+    for d in c01b.corpus():
+        J("c01b", "do", dict(design=d))
+    k = made = 0
+    while made < nb:
+        r = core.rng(seed, "C06", "f-c01b", k)
+        k += 1
+        d = c01b.gen_bdesign(r, size=r.choice([1, 2, 2]))
+        if len(json.dumps(d)) > 9000:
+            continue
+        made += 1
+        J("c01b", "do", dict(design=d), feats=flat_clash_features(d))
+    # C05 adversarial names
+    for d in c05.corpus():
+        J("c05", "do_design", dict(kind="design", design=d))
+    n5 = 50 if quick else 1200
+    k = made = 0
+    while made < n5:
+        r = core.rng(seed, "C06", "f-c05a", k)
+        k += 1
+        base = D.gen_design(r, size=r.choice([1, 2, 2]), nested=r.random() < 0.5)
+        base["bdefs"] = []
+        c05.add_ref_groups(base, r)
+        adv, _ = c05.adversarial(base, r)
+        made += 1
+        J("c05", "do_design", dict(kind="design", design=c05.with_order(adv, bool(made % 2))))
+    for k in range(n5):
+        r = core.rng(seed, "C06", "f-c05s", k)
+        adv, _ = c05.adversarial(c05.gen_structured(r), r, rounds=r.choice([1, 2, 2]))
+        J("c05", "do_design", dict(kind="design", design=c05.with_order(adv, bool(k % 2))))
+    # C10 bundle trees
+    cs = c10.corpus() + [c10.gen_case(core.rng(seed, "C06", "f-c10", k)) for k in range(60 if quick else 1500)]
+    for c in cs:
+        J("c10", "do_case", c)
+    # C16 flatten: the hierarchy and what flatten() returns
+    for d in c16.corpus():
+        J("c16", "do", dict(design=d))
+    for k in range(50 if quick else 1200):
+        r = core.rng(seed, "C06", "f-c16", k)
+        d = c16.gen_hier(r, size=r.choice([1, 2, 2, 3]))
+        if r.random() < 0.35:
+            d = c16.adversarial(r, d)
+        J("c16", "do", dict(design=d))
+    # C19 built-in generators over their parameter ranges
+    plist = core.run_worker("c19", dict(kind="list"))["results"]
+    prims = {p["name"]: p["ports"] for p in plist}
+    prim_units = [dict(kind="prim", name=p["name"]) for p in plist if 2 <= len(p["ports"]) <= 4]
+    ns = list(range(1, 5 if quick else 13))
+    r = core.rng(seed, "C06", "f-c19")
+    pool = (c19.series_jobs(prim_units, prims, ns, ["name", "port"]) +
+            c19.series_jobs(c19.EXT_UNITS + c19.MOD_UNITS, prims, ns, ["name", "port", "fresh"], pre_modes=(False, True)))
+    pick = r.sample(pool, min(len(pool), 90 if quick else 2500))
+    pick += [dict(gen="mosstack", unit=u, nser=n) for u in c19.MOS_UNITS for n in ns[:3] + [None]]
+    pick += [dict(gen="wrapper", unit=u) for u in prim_units[:6] + c19.EXT_UNITS + c19.MOD_UNITS]
+    for j in c19.corpus_jobs() + pick:
+        J("c19", "do", j)
+    # C15 PDK compilation: every ASAP7 / sample request of the exhaustive selection (default, given, partial and literal sizes),
+    # a sample of the Sky130 / GF180 ones, hierarchies
+    tables = core.run_worker("c15", dict(kind="tables"))["results"]
+    sel = c15.select_jobs(tables, quick)
+    small = [j for j in sel if j["pdk"] in ("asap7", "sample")]
+    big = [j for j in sel if j["pdk"] not in ("asap7", "sample")]
+    r = core.rng(seed, "C06", "f-c15")
+    pj = c15.corpus_jobs() + small + r.sample(big, min(len(big), 60 if quick else 1500))
+    pj += [c15.hier_job(core.rng(seed, "C06", "f-c15h", k), tables) for k in range(50 if quick else 1200)]
+    for i, j in enumerate(pj):
+        j = dict(j, id=i)
+        default_sizes = (j["pdk"] == "asap7" and all(it.get("t") != "prim" or ("w" not in it["params"] and "l" not in it["params"])
+                                                      for md in j["mods"] for it in md["insts"]))
+        J("c15", "do_design", j, feats=dict(pdk=j["pdk"], asap7_default_sizes=int(default_sizes)))
+    return jobs
+
+
+# ------------------------------------------------------------------------------------------------ run
 def run(run, tier, seed, replay=None):
     quick = tier == "quick"
     jobs = []
+    cp = corpus()
+    for label, d, expect in cp:
+        jobs.append(dict(source="design", design=d, corpus=label, expect=expect))
+    for label, j, expect in corpus_driver_jobs():
+        jobs.append(dict(j, corpus=label, expect=expect))
     for ex in EXAMPLES:
         jobs.append(dict(source="example", example=ex, repo=core.REPO))
     for n in range(1, 5 if quick else 13):
@@ -42,9 +386,24 @@ def run(run, tier, seed, replay=None):
     ndes = 250 if quick else 5000
     for k in range(ndes):
         r = core.rng(seed, "C06", "designs", k)
-        jobs.append(dict(source="design", design=D.gen_design(r, size=r.choice([1, 2, 3]), devs=[("R", 2), ("C", 2)] if k % 3 else None, reconnect=True)))
-    # stressed designs: single-fault mutants of valid designs (the C02 mutators) and module-name clashes at every depth.
-    # Most are rejected by the implementation, which is fine here: whatever package IS returned must be well-formed.
+        d = D.gen_design(r, size=r.choice([1, 2, 3]), devs=[("R", 2), ("C", 2)] if k % 3 else None, reconnect=True)
+        if k % 2 and d["exts"]:
+            d = enrich(r, d)
+            jobs.append(dict(source="design", design=d, enriched=True))
+        else:
+            jobs.append(dict(source="design", design=d))
+    # designs built around external modules (every second gen_design has none): one or two modules, mostly external instances
+    for k in range(120 if quick else 2500):
+        r = core.rng(seed, "C06", "extdesigns", k)
+        d = None
+        for _ in range(20):
+            d = D.gen_design(r, size=r.choice([1, 2]), devs=[("R", 2), ("C", 2)])
+            if sum(len(ext_insts(d, j)) for j in range(len(d["exts"]))) >= 2:
+                break
+        jobs.append(dict(source="design", design=enrich(r, d), enriched=True))
+    # stressed designs: single-fault mutants of valid designs (the C02 mutators), module-name clashes at every depth and
+    # conflicting external declarations. Most are rejected by the implementation, which is fine here: whatever package IS
+    # returned must be well-formed - and what the exporter refuses, the exporter model must refuse.
     from . import c02 as M
     nstress = 200 if quick else 4000
     k = made = 0
@@ -53,9 +412,14 @@ def run(run, tier, seed, replay=None):
         r = core.rng(seed, "C06", "stress", k)
         k += 1
         base = D.gen_design(r, size=r.choice([2, 3]), devs=[("R", 2), ("C", 2)])
-        kind = r.choice(["index", "index", "empty", "nameclash", "deepclash", "deepclash", "width", "array_width", "extra", "missing", "unnamed"])
+        kind = r.choice(["index", "index", "empty", "nameclash", "deepclash", "deepclash", "width", "array_width", "extra", "missing",
+                         "unnamed", "extconflict", "extconflict"])
         if kind == "deepclash":
             mut = deep_nameclash(r, copy.deepcopy(base))
+        elif kind == "extconflict":
+            mut = enrich(r, base, conflict=True)
+            if "conflicting_twin" not in mut["feats"]:
+                mut = None
         else:
             st = M.sites(base)
             mut = M.MUTATORS[kind](r, copy.deepcopy(base), r.choice(st)) if st else None
@@ -64,51 +428,189 @@ def run(run, tier, seed, replay=None):
         made += 1
         stress_kinds[kind] = stress_kinds.get(kind, 0) + 1
         jobs.append(dict(source="design", design=mut, stress=kind))
+    fj = foreign_jobs(seed, quick)
+    jobs += fj
     if replay is not None:
         jobs = [replay["job"]]
-    # examples and generators share process-global caches: one interpreter per example, sharded otherwise
-    outs = []
+    # examples share process-global caches with nothing: one interpreter per example; everything else sharded
     ex_jobs = [j for j in jobs if j["source"] == "example"]
     other = [j for j in jobs if j["source"] != "example"]
-    ex_outs = [core.run_worker("c06", dict(jobs=[j]), timeout=600)["results"][0] for j in ex_jobs]
-    other_outs = core.run_worker_sharded("c06", other)
+    strip = lambda j: {k: v for k, v in j.items() if k not in ("feats", "corpus", "expect", "enriched", "stress")}
+    ex_outs = [core.run_worker("c06", dict(jobs=[strip(j)]), timeout=600)["results"][0] for j in ex_jobs]
+    other_outs = core.run_worker_sharded("c06", [strip(j) for j in other])
     jobs = ex_jobs + other
     outs = ex_outs + other_outs
     pk, owner = [], []
     for ji, o in enumerate(outs):
-        if o["err"] is not None and jobs[ji]["source"] != "design":
+        if o["err"] is not None and jobs[ji]["source"] not in ("design", "driver"):
             run.violation(f"C06:source:{json.dumps(jobs[ji], sort_keys=True)[:200]}", f"package source failed: {o['err']}",
                           dict(kind="source-failed", job=jobs[ji], err=o["err"]), found_input=False)
+        if o["err"] is not None and jobs[ji]["source"] == "driver":
+            run.violation(f"C06:driver:{jobs[ji]['driver']}", f"driver {jobs[ji]['driver']} could not be run on its own job: {o['err']}",
+                          dict(kind="adapter-failed", job=jobs[ji], err=o["err"]), found_input=False)
         for p in o["pkgs"]:
             pk.append(p)
             owner.append(ji)
-    cases = [D.c_pkg(p["pkg"]) for p in pk]
-    bad = core.coq_eval_cases("C06", "pkgs", IMPORTS, "package", cases, "run_cases chk_c06", chunk=60)
+    key_of = lambda ji: short_key(strip(jobs[ji]))
+    # ---- every package: wf_pkg + parameters + the three consumers
+    bad = core.coq_eval_cases("C06", "pkgs", IMPORTS, "c06_case", [c_case(p) for p in pk], "run_cases chk_c06_full", chunk=50)
+    size = lambda i: len(json.dumps(pk[i]["pkg"]))
+    groups = {}
+    for i, code in bad:
+        groups.setdefault(code, []).append(i)
+    from . import c15
+    for code, idx in sorted(groups.items()):
+        if code in (50, 51):
+            # recorded findings are matched by the exact key of their corpus witness (required parameters of an ideal source met in the
+            # C19 stream: one key per primitive); any other package of the class is reported too
+            def k5(i):
+                j = jobs[owner[i]]
+                if code == 51 and j["source"] == "driver" and j["driver"] == "c19" and (j["arg"].get("unit") or {}).get("kind") == "prim":
+                    return "C06:required-params:prim:" + j["arg"]["unit"]["name"]
+                return ("C06:flatnames:" if code == 50 else "C06:required-params:") + key_of(owner[i])
+            byk = {}
+            for i in idx:
+                byk.setdefault(k5(i), []).append(i)
+            knownk = {k.get("key") for k in run.known if k.get("status") == "finding"}
+            fresh = 0
+            for k, ii in sorted(byk.items()):
+                if k not in knownk:
+                    fresh += 1
+                    if fresh > 3:
+                        continue
+                i = sorted(ii, key=size)[0]
+                run.violation(k, WHAT[code], dict(kind="impl-violates-spec", job=strip(jobs[owner[i]]), pkg=pk[i]["pkg"], code=code,
+                                                  accept=pk[i]["accept"], failing=len(ii)))
+            continue
+        rest = []
+        if code in (19, 20):
+            # PDK devices with a port the generic primitive does not have (recorded findings of C15, C15:ports:* / C15:arity:*): the
+            # compiled instance leaves that port unconnected, and to_proto returns the package. One report per (pdk, primitive, model).
+            sel = {}
+            for i in idx:
+                j = jobs[owner[i]]
+                if j["source"] == "driver" and j["driver"] == "c15" and c15.is_single(j["arg"]):
+                    a = j["arg"]
+                    k = (f"C06:pdk-arity:{a['pdk']}:{a['mods'][0]['insts'][0]['prim']}" if a.get("arity") == "cross"
+                         else "C06:pdk-ports:" + c15.selector(a))
+                    sel.setdefault(k, []).append(i)
+                else:
+                    rest.append(i)
+            for k, ii in sorted(sel.items()):
+                i = sorted(ii, key=size)[0]
+                run.violation(k, "a PDK-compiled instance does not connect every port of its device (wf_pkg error code 19)" if code == 19
+                              else "a PDK-compiled instance connects a port its device does not have (wf_pkg error code 20)",
+                              dict(kind="impl-violates-spec", job=strip(jobs[owner[i]]), pkg=pk[i]["pkg"], code=code, failing=len(ii)))
+        else:
+            rest = idx
+        for i in sorted(rest, key=size)[:2]:
+            what = WHAT.get(code, f"exported package is not well-formed (wf_pkg error code {code})")
+            run.violation(f"C06:{'wf' if code >= 11 and code < 41 else 'accept'}:" + key_of(owner[i]), what,
+                          dict(kind="spec-inconsistency" if code == 3 else "impl-violates-spec", job=strip(jobs[owner[i]]), pkg=pk[i]["pkg"],
+                               code=code, accept=pk[i]["accept"], failing=len(rest)), found_input=code != 3)
+    # ---- corpus expectations
+    for ji, j in enumerate(jobs):
+        if j.get("expect") == "refused" and outs[ji]["pkgs"]:
+            run.violation("C06:corpus:" + j["corpus"], "to_proto returned a package for two ExternalModules of one (domain, name) with different declarations",
+                          dict(kind="impl-violates-spec", job=strip(j), pkg=outs[ji]["pkgs"][0]["pkg"]))
+        if j.get("expect") in ("ok", "finding") and not outs[ji]["pkgs"]:
+            run.violation("C06:corpus:" + j["corpus"], f"corpus design was not exported: {outs[ji]['err']}",
+                          dict(kind="source-failed", job=strip(j), err=outs[ji]["err"]), found_input=False)
+        if j.get("expect") == "finding" and outs[ji]["pkgs"] and not any(1 for i, c in bad if c in (50, 51) and owner[i] == ji):
+            run.violation("C06:corpus-stale:" + j["corpus"], "a recorded finding no longer reproduces (netlisters accept the package): update tools/findings/C06.json",
+                          dict(kind="stale-finding", job=strip(j)), found_input=False)
+    # ---- tie of the exporter model
+    tied = [ji for ji, j in enumerate(jobs) if tie_scope(j, outs[ji])]
+    obad = core.coq_eval_cases("C06", "order", IMPORTS, "c06_order_case", [c_order_case(jobs[ji]["design"], outs[ji]) for ji in tied],
+                               "run_cases chk_c06_order", chunk=80)
+    for i, code in sorted(obad, key=lambda ic: len(json.dumps(jobs[tied[ic[0]]]["design"])))[:2]:
+        ji = tied[i]
+        run.violation("C06:order-tie:" + key_of(ji),
+                      "exporter model and implementation differ (module order / references / external declarations / refusal)" if code == 2
+                      else "exporter model could not be evaluated (unknown primitive or fuel)",
+                      dict(kind="tie-broken", job=strip(jobs[ji]), impl=outs[ji], code=code, failing=len(obad)), found_input=False)
+    # ---- evidence
     by_src = {}
     for ji in owner:
-        by_src[jobs[ji]["source"]] = by_src.get(jobs[ji]["source"], 0) + 1
-    nontrivial = len({json.dumps(p["pkg"], sort_keys=True) for p in pk
-                      if sum(len(m["insts"]) for m in p["pkg"]["mods"]) >= 2})
+        s = jobs[ji]["source"] if jobs[ji]["source"] != "driver" else "foreign:" + jobs[ji]["driver"]
+        by_src[s] = by_src.get(s, 0) + 1
+    nontrivial = len({json.dumps(p["pkg"], sort_keys=True) for p in pk if sum(len(m["insts"]) for m in p["pkg"]["mods"]) >= 2})
     netlisted = sum(1 for p in pk if p["accept"]["spice"] is None)
     stressed = [ji for ji, j in enumerate(jobs) if j.get("stress")]
+    exported = lambda ji: bool(outs[ji]["pkgs"])
+    ncorp = sum(1 for j in jobs if j.get("corpus"))
+    run.stream("corpus", ncorp, ncorp, exported=sum(1 for ji, j in enumerate(jobs) if j.get("corpus") and exported(ji)),
+               rule="fixed witnesses: repaired defects, recorded findings, shapes earlier seeded changes needed; all count")
     run.stream("stressed-designs", len(stressed), len({json.dumps(jobs[ji]["design"], sort_keys=True) for ji in stressed}),
                by_fault_kind=stress_kinds, accepted_by_impl=sum(1 for ji in stressed if outs[ji]["pkgs"]),
-               rule="single-fault mutants and module-name clashes at depth >= 2; every package the implementation still returns is checked like any other")
+               refused_by_exporter=sum(1 for ji in stressed if not outs[ji]["pkgs"] and outs[ji].get("stage") == "export"),
+               rule="single-fault mutants, module-name clashes at depth >= 2, conflicting external declarations; every package the "
+                    "implementation still returns is checked like any other")
+    enr = [ji for ji, j in enumerate(jobs) if j.get("enriched")]
+    feats = {}
+    for ji in enr:
+        if exported(ji):
+            for f in jobs[ji]["design"]["feats"]:
+                feats[f] = feats.get(f, 0) + 1
+    two_decl_same_name = sum(1 for p in pk if len({x["name"] for x in p["pkg"]["exts"]}) < len(p["pkg"]["exts"]))
+    run.stream("enriched-designs", len(enr), len({json.dumps(jobs[ji]["design"], sort_keys=True) for ji in enr if len(jobs[ji]["design"]["feats"]) >= 2}),
+               exported=sum(1 for ji in enr if exported(ji)), features_of_exported=feats,
+               packages_declaring_one_name_in_two_domains=two_decl_same_name,
+               rule="non-trivial = at least two of: same name in another domain, twin object, un-set dict parameter, un-set paramclass "
+                    "parameter, modules from two Python files; distinct by design")
+    for f in ("same_name_other_domain", "twin_object", "unset_dict_param", "unset_class_param", "two_python_files"):
+        if replay is None and feats.get(f, 0) == 0:
+            run.violation(f"C06:coverage:enriched:{f}", f"coverage target missed: no exported enriched design with {f} (fail closed)",
+                          dict(kind="coverage", features=feats), found_input=False)
+    if replay is None and two_decl_same_name == 0:
+        run.violation("C06:coverage:two-domains", "coverage target missed: no package declares one external name in two domains",
+                      dict(kind="coverage"), found_input=False)
+    fstat = {}
+    for ji, j in enumerate(jobs):
+        if j["source"] != "driver":
+            continue
+        s = fstat.setdefault(j["driver"], dict(jobs=0, exported=0, packages=0))
+        s["jobs"] += 1
+        s["exported"] += int(exported(ji))
+        s["packages"] += len(outs[ji]["pkgs"])
+        for f, v in (j.get("feats") or {}).items():
+            if isinstance(v, int):
+                s[f] = s.get(f, 0) + (v if exported(ji) else 0)
+            elif exported(ji):
+                s.setdefault("by_" + f, {})
+                s["by_" + f][v] = s["by_" + f].get(v, 0) + 1
+    nfj = sum(s["jobs"] for s in fstat.values())
+    run.stream("foreign-generators", nfj, len({json.dumps(p["pkg"], sort_keys=True) for i, p in enumerate(pk)
+                                                if jobs[owner[i]]["source"] == "driver" and sum(len(m["insts"]) for m in p["pkg"]["mods"]) >= 2}),
+               by_driver=fstat,
+               rule="jobs of the C01-bundle, C05, C10, C15, C16 and C19 generators run through their own implementation drivers, every exported "
+                    "package captured; non-trivial = distinct packages with at least two instances")
+    if replay is None:
+        need = dict(c01b=("clash_connected", 1), c15=("asap7_default_sizes", 1))
+        for drv in ("c01b", "c05", "c10", "c15", "c16", "c19"):
+            s = fstat.get(drv, dict(exported=0))
+            if s["exported"] < 10:
+                run.violation(f"C06:coverage:foreign:{drv}", f"coverage target missed: only {s['exported']} jobs of driver {drv} exported a package",
+                              dict(kind="coverage", stats=s), found_input=False)
+            if drv in need and s.get(need[drv][0], 0) < need[drv][1]:
+                run.violation(f"C06:coverage:foreign:{drv}:{need[drv][0]}", f"coverage target missed: no exported {drv} design with {need[drv][0]}",
+                              dict(kind="coverage", stats=s), found_input=False)
+        if fstat.get("c15", {}).get("by_pdk", {}).get("asap7", 0) == 0:
+            run.violation("C06:coverage:foreign:c15:asap7", "coverage target missed: no ASAP7-compiled package", dict(kind="coverage"), found_input=False)
     run.stream("packages", len(pk), nontrivial, by_source=by_src, netlisted_spice_spectre=netlisted,
                with_physical_primitives_not_netlisted=sum(1 for p in pk if p["accept"]["physical"]),
+               with_instance_parameters=sum(1 for p in pk if any(i["params"] for m in p["pkg"]["mods"] for i in m["insts"])),
+               with_external_declarations=sum(1 for p in pk if p["pkg"]["exts"]),
                rule="non-trivial = at least two instances in the package; distinct by package content")
-    size = lambda i: len(json.dumps(pk[i]["pkg"]))
-    for i, code in sorted(bad, key=lambda ic: size(ic[0]))[:2]:
-        run.violation("C06:wf:" + json.dumps(jobs[owner[i]], sort_keys=True)[:400], f"exported package is not well-formed (wf_pkg error code {code})",
-                      dict(kind="impl-violates-spec", job=jobs[owner[i]], pkg=pk[i]["pkg"], code=code, failing=len(bad)))
-    for i, p in enumerate(pk):
-        for who in ("from_proto", "spice", "spectre"):
-            v = p["accept"][who]
-            if v is not None and not (isinstance(v, str) and v.startswith("skipped")):
-                run.violation(f"C06:{who}:" + json.dumps(jobs[owner[i]], sort_keys=True)[:400], f"{who} rejects an exported package: {v}",
-                              dict(kind="impl-violates-spec", job=jobs[owner[i]], pkg=p["pkg"], who=who, err=v))
-                break
+    run.stream("exporter-model-tie", len(tied), len({json.dumps(jobs[ji]["design"], sort_keys=True) for ji in tied
+                                                     if len(jobs[ji]["design"]["mods"]) >= 2}),
+               refused_by_both=sum(1 for ji in tied if not outs[ji]["pkgs"]) - sum(1 for i, c in obad if not outs[tied[i]]["pkgs"]),
+               out_of_scope=sum(1 for ji, j in enumerate(jobs) if j["source"] == "design") - len(tied),
+               rule="designs that reach the exporter (exported, or refused by it); non-trivial = at least two modules; out of scope = "
+                    "rejected while building or elaborating")
     if pk:
-        run.sample(dict(source=jobs[owner[0]], modules=[m["name"] for m in pk[0]["pkg"]["mods"]]))
-        run.sample(dict(source="design", pkg=pk[-1]["pkg"]))
-    run.coverage["traces_validated_against_impl"] = len(pk)
+        run.sample(dict(source=strip(jobs[owner[0]]), modules=[m["name"] for m in pk[0]["pkg"]["mods"]]))
+        last_design = [i for i in range(len(pk)) if jobs[owner[i]].get("enriched")]
+        if last_design:
+            run.sample(dict(source="enriched design", design=jobs[owner[last_design[-1]]]["design"], pkg=pk[last_design[-1]]["pkg"]))
+    run.coverage["traces_validated_against_impl"] = len(pk) + len(tied)
